@@ -1,6 +1,9 @@
 //! jrv — runtime monitors for the jsonrpsee properties C01..C20 (see /verif/DESIGN.md).
+pub mod classify;
+pub mod handlers;
 pub mod jgen;
 pub mod memsrv;
+pub mod msggen;
 pub mod report;
 pub mod rng;
 pub mod runner;
